@@ -19,6 +19,7 @@ Record idtable := {
   it_writer_next0 : option Z;     (* let mut next_auto_sprite_id = 0 *)
   it_writer_step : option Z;      (* *next_auto_sprite_id = sprite_id + 1 *)
   it_writer_carry : bool;         (* the counter persists from one entry to the next *)
+  it_writer_wraps : bool;         (* `sprite_id + 1` (false: overflow panics in a debug build) or `sprite_id.wrapping_add(1)` (true) *)
   it_script_const : posrule;
   it_sub_const : posrule;
   it_std_object : posrule;
@@ -77,14 +78,14 @@ Fixpoint const_ids (op : seqop) (k0 : Z) (base k : Z) (l : list sprite_decl) : o
       Ok ((sd_name s, v) :: r)
   end.
 
-(* write_entry: sprite.id.unwrap_or(next); next = id + 1 (u32; overflow panics in a debug build) *)
-Fixpoint written_ids (step next : Z) (l : list sprite_decl) : outcome (list Z) :=
+(* write_entry: sprite.id.unwrap_or(next); next = id + 1 in u32 (`+`: overflow panics in a debug build; wrapping_add: wraps) *)
+Fixpoint written_ids (wraps : bool) (step next : Z) (l : list sprite_decl) : outcome (list Z) :=
   match l with
   | [] => Ok []
   | s :: t =>
       let id := match sd_id s with Some e => u32 e | None => next end in
-      if two32 <=? id + step then Panic P_OVERFLOW
-      else do r <- written_ids step (id + step) t; Ok (id :: r)
+      if negb wraps && (two32 <=? id + step) then Panic P_OVERFLOW
+      else do r <- written_ids wraps step (u32 (id + step)) t; Ok (id :: r)
   end.
 
 (* defer_equality_check: every redefinition of a name must have the same value *)
@@ -120,7 +121,7 @@ Definition compile_anm (T : idtable) (inp : anm_in) : outcome (list Z * list Z) 
                             | UScript n => pos_const (it_script_const T) (ai_scripts inp) n
                             end) (ai_uses inp);
   if negb (consistent consts) then Err E_AMBIG else
-  do tbl <- written_ids step next0 decls;
+  do tbl <- written_ids (it_writer_wraps T) step next0 decls;
   Ok (tbl, map u32 args).
 
 (* ------------------------------------------------------------------------------------------ *)
